@@ -65,7 +65,7 @@ def pyinit_post(rep, results, a):
 
 
 diffcheck.main("C12", "exploration", gen.programs, post=pyinit_post,
-    rule="program = one import DAG on <=3 (thorough: <=4, all 31) library packages up to isomorphism, main importing the roots or every package (reverse order), x content "
+    rule="program = one import DAG on <=3 (thorough: <=4, all 31 with two variants) library packages up to isomorphism, main importing the roots or every package (reverse order), x content "
          "variants {plain; several init functions per file and blank variables; blank imports; a package-level initialiser using the patched sync/atomic; all}. Every package has two "
          "files whose declaration dependencies run against file order, cross-package initialisers calling into the imported package, and init functions in both files. "
          "observation = the complete ordered trace of initialiser and init executions; non-trivial = distinct traces",
